@@ -160,6 +160,22 @@ class _Norm(Normalizer):
 
     def _arith(self, n, result, operands=()):
         ct = self.tu.sd(n).get('ct')
+        if ct and ct.rstrip().endswith('*') and n.get('kind') == 'BinaryOperator' and len(operands) == 2:
+            # pointer +/- integer: the integer counts elements, addresses count bytes
+            pointee = ct.rstrip()[:-1].replace('const ', '').replace('volatile ', '').strip()
+            tr = type_range(pointee)
+            es = 1 if pointee in ('char', 'unsigned char', 'signed char', 'void') else 8 if pointee.endswith('*') else \
+                None if tr is None else max(1, (int(tr[1] - tr[0]).bit_length() + 7) // 8)
+            ks = self.tu.kids(n)
+            lct = (self.tu.sd(ks[0]).get('ct') or '').rstrip()
+            pi = 0 if lct.endswith('*') else 1          # which operand is the pointer
+            if es is None:
+                return Poly.atom(('unk', 'pointer arithmetic on %s' % ct, n.get('id')))
+            if es != 1:
+                a, b = operands
+                ptr, off = (a, b) if pi == 0 else (b, a)
+                return ptr + off * es if n.get('opcode') == '+' else ptr - off * es
+            return result
         tr = type_range(ct)
         if tr is not None and is_unsigned(ct) and not result.is_const():
             lo, hi = result.range(lambda a: self.flow.bounds(self.s, a))
@@ -858,6 +874,20 @@ class Flow:
                 return [s]
             if k == 'CXXThrowExpr':
                 return [s.event(('throw', tu.sd(n).get('tty', '?'), tu.loc(n))).set('$thrown', True)]
+            if k == 'CXXNewExpr' and tu.sd(n).get('nplace', 0) >= 1:
+                sdn = tu.sd(n)
+                where = tuple(self.val(tu.node(i), s, fr) for i in sdn.get('pargs', []) if tu.node(i) is not None)
+                init = tu.node(sdn.get('init')) if sdn.get('init') else None
+                src = ()
+                if init is not None:
+                    ist = tu.strip(init)
+                    if ist is not None and ist.get('kind') in ('CXXConstructExpr', 'CXXTemporaryObjectExpr'):
+                        src = tuple(self.val(a, s, fr) for a in tu.kids(ist))
+                    elif ist is not None and ist.get('kind') in ('ParenListExpr', 'InitListExpr'):
+                        src = tuple(self.val(a, s, fr) for a in tu.kids(ist))
+                    else:
+                        src = (self.val(init, s, fr),)
+                return [s.event(('placement-new', sdn.get('aty', '?'), where, src, tu.loc(n)))]
             return [s]
         if e[0] == 'AD':
             # end of scope of a local: unique_ptr locals destroy their pointee, class objects run their destructor
@@ -1100,6 +1130,21 @@ class Flow:
                     return [s3.set(rkey, this) for (s3, _rv) in self.run_fn(fr2, s2)]
                 cq = '%s::%s' % (T, T.split('<')[0].rsplit('::', 1)[-1])
                 return [s.event(('call', cq, this, argv, loc)).set(rkey, this)]
+
+        # ---- std::atomic<T> as a cell holding a T (sequential model: this analysis does not reason about interleavings)
+        if sd.get('rec') in ('std::atomic', 'std::__atomic_base', 'std::atomic_flag'):
+            if is_ctor:
+                return [s.set(rkey, argv[0] if len(argv) == 1 else Poly.const(0))]
+            cell = self.loc_of(obj, s, fr) if obj is not None else None
+            if cell is not None and (name.startswith('operator ') or name == 'load'):
+                return [s.set(rkey, self.val(obj, s, fr))]
+            if cell is not None and name in ('operator=', 'store') and argv:
+                s = self.assign(obj, argv[0], s, fr, None, n)
+                return [s.set(rkey, argv[0])]
+            if cell is not None and name == 'exchange' and argv:
+                cur = self.val(obj, s, fr)
+                s = self.assign(obj, argv[0], s, fr, None, n)
+                return [s.set(rkey, cur)]
 
         # ---- smart pointers as pointer cells
         if sd.get('rec') in SMART:
